@@ -252,6 +252,7 @@ class Func:
         s.blocks = {}; s.order = []
         cur = None; label = None
         pending = None
+        pending_invoke = None
         for raw in s.lines:
             line = raw.strip()
             if not line or line.startswith(';') or line.startswith('#dbg'): continue
@@ -269,6 +270,15 @@ class Func:
                 label = str(k); cur = []; s.blocks['%' + label] = cur; s.order.append('%' + label)
             if re.search(r'\bswitch\b', line) and line.endswith('['):
                 pending = line; continue
+            if pending_invoke is not None:
+                # `invoke f(..) to label %normal unwind label %pad`: panics abort in these builds (a panic entry point ends the path), so an
+                # invoke is a call followed by a branch to its normal destination; the landing pad is never entered
+                m2 = re.match(r'^to label (%("(?:[^"\\]|\\.)*"|[-\w.$]+)) unwind label', line)
+                if not m2: raise ValueError('malformed invoke continuation: ' + line[:120])
+                cur.append(parse_instr(pending_invoke)); cur.append(('br', m2.group(1))); pending_invoke = None
+                continue
+            if re.match(r'^(%\S+ = )?invoke\b', line):
+                pending_invoke = re.sub(r'^((?:%\S+ = )?)invoke\b', r'\1call', line); continue
             cur.append(parse_instr(line))
         s.entry = s.order[0]
 
@@ -801,12 +811,12 @@ class Exec:
         n = size_of(ty)
         o = st.find(addr, n)
         off = addr - o.base
-        bs = []
-        for i in range(n):
-            b = o.data.get(off + i)
-            if b is None:
-                return UNDEF
-            bs.append(b)
+        bs = [o.data.get(off + i) for i in range(n)]
+        if all(b is None for b in bs):
+            return UNDEF
+        # a wider load over partly uninitialised bytes (a field followed by padding, copied as one integer): the defined bytes keep their
+        # value; the uninitialised ones are padding the program never looks at and read as 0 (one of the values `undef` may take)
+        bs = [0 if b is None else b for b in bs]
         if all(not is_sym(b) for b in bs):
             v = 0
             for i, b in enumerate(bs): v |= b << (8 * i)
@@ -922,8 +932,12 @@ class Exec:
                 _, d, ty, c, a, b = ins
                 cv = s.ev(st, fr, c, IntTy(1))
                 av = s.ev(st, fr, a, ty); bv_ = s.ev(st, fr, b, ty)
-                if isinstance(cv, Undef): raise Event('unsupported', 'select on undef')
-                if not is_sym(cv): r = av if cv else bv_
+                if isinstance(cv, Undef):
+                    # LLVM speculates selects over fields of an enum variant that is not the live one; the value is then discarded by a
+                    # later select on the discriminant.  Propagate undef: any *use* that matters (branch, address, call argument) is
+                    # still reported as unsupported where it happens.
+                    r = av if (not is_sym(av) and not is_sym(bv_) and not isinstance(av, (tuple, Undef)) and av == bv_) else Undef()
+                elif not is_sym(cv): r = av if cv else bv_
                 elif isinstance(av, tuple) or isinstance(bv_, tuple) or isinstance(av, Undef) or isinstance(bv_, Undef):
                     return s.branch(st, cv, lambda n, t: n.frames[-1].regs.__setitem__(d, av if t else bv_) or setattr(n.frames[-1], 'ip', n.frames[-1].ip + 1))
                 else:
